@@ -159,6 +159,9 @@ func (o Opt) coq() string {
 		return fmt.Sprintf("%s %s %s", o.Name, cS(o.S), cList(o.L, cS))
 	case "WithPathPrefix":
 		return "WithPathPrefix " + cS(o.S)
+	case "WithResourceIndicators", "WithResourceIndicatorsRequired":
+		// S: the mandatory first resource, L: the others
+		return fmt.Sprintf("%s %s %s", o.Name, cS(o.S), cList(o.L, cS))
 	}
 	return o.Name
 }
@@ -188,12 +191,13 @@ type Params struct {
 	LoginHint  string
 	NotifToken Handle
 	UserCode   string
+	Resources  []string `json:",omitempty"` // `resource` parameters (RFC 8707)
 }
 
 func (p Params) coq() string {
-	return fmt.Sprintf("(mkParams %s %s %s %s %s %s %s %s %s %s %s %s %s)", cN(p.RequestURI), cS(p.Redirect), cS(p.RespMode),
+	return fmt.Sprintf("(mkParams %s %s %s %s %s %s %s %s %s %s %s %s %s %s)", cN(p.RequestURI), cS(p.Redirect), cS(p.RespMode),
 		cS(p.RespType), cS(p.Scopes), cS(p.State), cS(p.Nonce), p.Challenge.coq(), cS(p.Method), cN(p.DpopJkt),
-		cS(p.LoginHint), cN(p.NotifToken), cS(p.UserCode))
+		cS(p.LoginHint), cN(p.NotifToken), cS(p.UserCode), cList(p.Resources, cS))
 }
 
 // DPoP proof as the model sees it
@@ -263,12 +267,13 @@ type Pol struct {
 	Sub     string
 	Granted string
 	Err     string
+	Resources []string `json:",omitempty"` // what the policy passes to GrantResources
 }
 
 func (p Pol) coq() string {
 	switch p.Kind {
 	case "PolSuccess":
-		return fmt.Sprintf("(PolSuccess %s %s)", cS(p.Sub), cS(p.Granted))
+		return fmt.Sprintf("(PolSuccess %s %s %s)", cS(p.Sub), cS(p.Granted), cList(p.Resources, cS))
 	case "PolFailWith":
 		return "(PolFailWith " + p.Err + ")"
 	}
@@ -298,6 +303,7 @@ type Op struct {
 	AuthReq  Handle
 	HG       string // HgOk, HgDeny, HgFail
 	BA       string // BaApprove ...
+	Resources []string `json:",omitempty"` // `resource` parameters of a token request
 	// query
 	Tok       PTok
 	Allowed   bool
@@ -307,6 +313,7 @@ type Op struct {
 	InitOK  bool
 	Sub     string
 	Granted string
+	GrantedRes []string `json:",omitempty"` // resources the InitBackAuthFunc grants
 	// tick
 	D int
 }
@@ -320,8 +327,8 @@ func (o Op) coq() string {
 	case "Par":
 		return fmt.Sprintf("OpPar (mkPReq %s %s %s)", o.Cred.coq(), o.Params.coq(), o.Bind.coq())
 	case "Token":
-		return fmt.Sprintf("OpToken %s (mkTReq %s %s %s %s %s %s %s %s %s %s)", grantCoq[o.Grant], o.Cred.coq(), o.Bind.coq(),
-			cS(o.Scope), cN(o.Code), cS(o.Redirect), cN(o.Refresh), o.Verifier.coq(), cN(o.AuthReq), o.HG, o.BA)
+		return fmt.Sprintf("OpToken %s (mkTReq %s %s %s %s %s %s %s %s %s %s %s)", grantCoq[o.Grant], o.Cred.coq(), o.Bind.coq(),
+			cS(o.Scope), cN(o.Code), cS(o.Redirect), cN(o.Refresh), o.Verifier.coq(), cN(o.AuthReq), o.HG, o.BA, cList(o.Resources, cS))
 	case "Introspect":
 		return fmt.Sprintf("OpIntrospect (mkQReq %s %s %s)", o.Cred.coq(), o.Tok.coq(), cB(o.Allowed))
 	case "Revoke":
@@ -333,7 +340,7 @@ func (o Op) coq() string {
 	case "TokenInfoReq":
 		return fmt.Sprintf("OpTokenInfoReq (mkUReq %s %s %s)", o.Tok.coq(), cB(o.HasHeader), o.Bind.coq())
 	case "BcAuthorize":
-		return fmt.Sprintf("OpBcAuthorize (mkBReq %s %s %s %s %s %s)", o.Cred.coq(), o.Params.coq(), o.Bind.coq(), cB(o.InitOK), cS(o.Sub), cS(o.Granted))
+		return fmt.Sprintf("OpBcAuthorize (mkBReq %s %s %s %s %s %s %s)", o.Cred.coq(), o.Params.coq(), o.Bind.coq(), cB(o.InitOK), cS(o.Sub), cS(o.Granted), cList(o.GrantedRes, cS))
 	case "NotifyOk":
 		return fmt.Sprintf("OpNotifyOk %s %s", cN(o.AuthReq), o.HG)
 	case "NotifyFail":
@@ -362,6 +369,8 @@ type Obs struct {
 	Idt     bool
 	Scope   string
 	Dpop    bool
+	Res     []string `json:",omitempty"` // tokens: the `resources` member of the response
+	Aud     []string `json:",omitempty"` // tokens: aud claim of a JWT access token; intro: aud
 	// par / ciba / page
 	H        Handle
 	Interval bool
@@ -391,7 +400,7 @@ func (o Obs) coq() string {
 	case "Err":
 		return "Out (OErr " + o.Err + ")"
 	case "Tokens":
-		return fmt.Sprintf("Out (OTokens (mkTResp %s %s %s %s %s 0 0))", cN(o.At), cN(o.Rt), cB(o.Idt), cS(o.Scope), cB(o.Dpop))
+		return fmt.Sprintf("Out (OTokens (mkTResp %s %s %s %s %s 0 0 %s %s))", cN(o.At), cN(o.Rt), cB(o.Idt), cS(o.Scope), cB(o.Dpop), cList(o.Res, cS), cList(o.Aud, cS))
 	case "Par":
 		return "Out (OPar " + cN(o.H) + ")"
 	case "Ciba":
@@ -400,7 +409,7 @@ func (o Obs) coq() string {
 		if !o.Active {
 			return "Out (OIntro inactive)"
 		}
-		return fmt.Sprintf("Out (OIntro (mkIntro true %s %s %d %s %s %s %s 0))", cB(o.Refresh), cS(o.Scope), o.Client, cS(o.Sub), cZ(o.Exp), cN(o.Jkt), cN(o.X5t))
+		return fmt.Sprintf("Out (OIntro (mkIntro true %s %s %d %s %s %s %s 0 %s))", cB(o.Refresh), cS(o.Scope), o.Client, cS(o.Sub), cZ(o.Exp), cN(o.Jkt), cN(o.X5t), cList(o.Aud, cS))
 	case "Ok":
 		return "Out OOk"
 	case "UserInfo":
